@@ -8,21 +8,6 @@ import JjModel.Lemmas.ConflictParse
 namespace JjModel.C05
 open JjModel.Conflicts JjModel.Generated
 
-/-- Well-formedness of a hunk list, as `files::merge_hunks` produces it for an `n`-sided conflict
-and as seen by a parser looking for markers of length ≥ `len` (decidable):
-* `len ≥ 1`, and there is at least one unresolved hunk;
-* resolved hunks are non-empty, never adjacent, and end with `\n` unless last;
-* unresolved hunks have `2n-1` terms; only the last hunk may have a term without final `\n`;
-* no line of any term is a conflict marker of length ≥ `len` (`ContentOK`). -/
-structure HunksWF (n len : Nat) (hs : List (List Bytes)) : Prop where
-  len_pos : 1 ≤ len
-  has_conflict : hs.any (·.length ≠ 1) = true
-  hunks : HunksWFAux n len hs
-
-instance (n len : Nat) (hs : List (List Bytes)) : Decidable (HunksWF n len hs) :=
-  decidable_of_iff (1 ≤ len ∧ hs.any (·.length ≠ 1) = true ∧ HunksWFAux n len hs)
-    ⟨fun ⟨a, b, c⟩ => ⟨a, b, c⟩, fun ⟨a, b, c⟩ => ⟨a, b, c⟩⟩
-
 theorem conflict_of_wf {n len : Nat} {hs : List (List Bytes)} (hwf : HunksWFAux n len hs) :
     ∀ h ∈ hs, h.length ≠ 1 → h.length % 2 = 1 ∧ ∀ c ∈ h, ContentOK len c := by
   induction hs with
@@ -70,16 +55,6 @@ theorem parse_materialize_git (diffFn : DiffFn) (n len : Nat) (hs : List (List B
         (fun _ => h3) hodd hc hall ci nc,
       fun hall => nodiff_renders_noeol diffFn .git rfl len hwf.len_pos eol he labels hl h
         (fun _ => h3) hodd hc hall ci nc⟩
-
-/-- Extra requirement of the two diff styles: `len ≥ 2` and no line of an unresolved hunk becomes a
-marker when one of the diff prefixes `' '`, `'-'`, `'+'` is put in front of it (decidable). -/
-structure DiffWF (len : Nat) (hs : List (List Bytes)) : Prop where
-  len_two : 2 ≤ len
-  safe : ∀ h ∈ hs, h.length ≠ 1 → ∀ c ∈ h, DiffSafe len c
-
-instance (len : Nat) (hs : List (List Bytes)) : Decidable (DiffWF len hs) :=
-  decidable_of_iff (2 ≤ len ∧ ∀ h ∈ hs, h.length ≠ 1 → ∀ c ∈ h, DiffSafe len c)
-    ⟨fun ⟨a, b⟩ => ⟨a, b⟩, fun ⟨a, b⟩ => ⟨a, b⟩⟩
 
 /-- **(d) Diff and DiffExperimental styles**, relative to the assumption `DiffFnOK` about the line
 diff the materializer runs internally (`ContentDiff::by_line`, C03's subject): it reconstructs
@@ -136,11 +111,6 @@ theorem marker_len_protects_lines (files : List Bytes) (f : Bytes) (hf : f ∈ f
 theorem marker_len_protects_diff_lines (files : List Bytes) (f : Bytes) (hf : f ∈ files) :
     DiffSafe (chooseMarkerLen files) f := chooseMarkerLen_diffSafe files f hf
 
-/-- every line of every term of `hs` is a line of one of the `files` (what line-level merging
-guarantees; C04's subject, checked by the harness on every case through `C05 wf`) -/
-def LinesFrom (files : List Bytes) (hs : List (List Bytes)) : Prop :=
-  ∀ h ∈ hs, ∀ c ∈ h, ∀ l ∈ linesWT c, ∃ f ∈ files, l ∈ linesWT f
-
 theorem contentOK_of_linesFrom {files : List Bytes} {hs : List (List Bytes)} (hlf : LinesFrom files hs)
     {h : List Bytes} (hh : h ∈ hs) {c : Bytes} (hc : c ∈ h) :
     ContentOK (chooseMarkerLen files) c ∧ DiffSafe (chooseMarkerLen files) c := by
@@ -173,22 +143,6 @@ theorem roundtrip_end_to_end_partial (diffFn : DiffFn) (hdf : DiffFnOK diffFn) (
       (chooseMarkerLen files) = some hs :=
   parse_materialize diffFn hdf style n _ hs _ _ hwf (diffWF_of_linesFrom hlf) (LabelsOK_fromVec hl)
     (detectEol_isEol files)
-
-instance (files : List Bytes) (hs : List (List Bytes)) : Decidable (LinesFrom files hs) := by
-  unfold LinesFrom; infer_instance
-
-instance (d : List DiffGroup) (l r : Bytes) : Decidable (DiffOK d l r) :=
-  decidable_of_iff ((d.map (·.left)).flatten = l ∧ (d.map (·.right)).flatten = r ∧
-      (∀ g ∈ d, g.matching = true → g.left = g.right) ∧ (∀ g ∈ d, EndsLF g.left ∧ EndsLF g.right))
-    ⟨fun ⟨a, b, c, e⟩ => ⟨a, b, c, e⟩, fun ⟨a, b, c, e⟩ => ⟨a, b, c, e⟩⟩
-
-/-- All hypotheses of `roundtrip_end_to_end_partial` about one real `merge_hunks` output, as one
-decidable check (the driver op `C05 wf` evaluates exactly this). -/
-def RoundTripHyps (files : List Bytes) (n : Nat) (hs : List (List Bytes)) : Prop :=
-  HunksWF n (chooseMarkerLen files) hs ∧ LinesFrom files hs
-
-instance (files : List Bytes) (n : Nat) (hs : List (List Bytes)) : Decidable (RoundTripHyps files n hs) := by
-  unfold RoundTripHyps; infer_instance
 
 /-- non-vacuity of `DiffFnOK`: the coarsest diff (one "different" group) satisfies it -/
 example : DiffFnOK (fun l r => [{ matching := false, left := l, right := r }]) := by
